@@ -23,25 +23,26 @@ import (
 //	now - (NotBefore - MaxClockSkew)            (conditions)
 //	NotOnOrAfter + MaxClockSkew - now           (conditions, each confirmation)
 type AssertionTimes struct {
-	Issue     int64   `json:"issue"`
-	NotBefore int64   `json:"not_before"`
-	NotAfter  int64   `json:"not_after"`
-	Confs     []int64 `json:"confs"`
-	Encrypted bool    `json:"encrypted,omitempty"`
+	Issue     int64    `json:"issue"`
+	NotBefore int64    `json:"not_before"`
+	NotAfter  int64    `json:"not_after"`
+	Confs     []int64  `json:"confs"`
+	Methods   []string `json:"methods,omitempty"` // per confirmation: "" = bearer | hok | sv
+	Encrypted bool     `json:"encrypted,omitempty"`
 }
 
 // Case is one response with its instants placed relative to the boundaries.
 type Case struct {
-	DelayNs int64  `json:"delay_ns"` // saml.MaxIssueDelay
-	SkewNs  int64  `json:"skew_ns"`  // saml.MaxClockSkew
-	NowSec  int64  `json:"now_sec"`
-	NowNsec int64  `json:"now_nsec"`
-	Layout  string `json:"layout"` // resp | assert | both
-	Entry   string `json:"entry"`  // xml | post
-	Lex     string `json:"lex"`    // lib | zone | frac | zoneless | subms
-	SubNs   int64  `json:"sub_ns,omitempty"`
-	NoDest  bool   `json:"no_dest,omitempty"` // the Response carries no Destination (allowed when it is unsigned)
-	Resp    int64  `json:"resp"` // response IssueInstant margin
+	DelayNs int64            `json:"delay_ns"` // saml.MaxIssueDelay
+	SkewNs  int64            `json:"skew_ns"`  // saml.MaxClockSkew
+	NowSec  int64            `json:"now_sec"`
+	NowNsec int64            `json:"now_nsec"`
+	Layout  string           `json:"layout"` // resp | assert | both
+	Entry   string           `json:"entry"`  // xml | post
+	Lex     string           `json:"lex"`    // lib | zone | frac | zoneless | subms
+	SubNs   int64            `json:"sub_ns,omitempty"`
+	NoDest  bool             `json:"no_dest,omitempty"` // the Response carries no Destination (allowed when it is unsigned)
+	Resp    int64            `json:"resp"`              // response IssueInstant margin
 	Asserts []AssertionTimes `json:"asserts"`
 }
 
@@ -86,9 +87,9 @@ func (c *Case) place(want time.Time) (text string, effective time.Time) {
 }
 
 type built struct {
-	spec     forge.ResponseSpec
-	respEff  int64   // effective response margin
-	effs     []AssertionTimes
+	spec    forge.ResponseSpec
+	respEff int64 // effective response margin
+	effs    []AssertionTimes
 }
 
 func (c *Case) build() built {
@@ -127,9 +128,13 @@ func (c *Case) build() built {
 		a.NotOnOrAfter = forge.S(s)
 		eff.NotAfter = margin(e, true, skew)
 		a.Confirmations = nil
-		for _, cm := range at.Confs {
+		for ci, cm := range at.Confs {
 			s, e = c.place(now.Add(time.Duration(cm)).Add(-skew))
-			a.Confirmations = append(a.Confirmations, forge.Confirmation{Recipient: forge.S(spkit.SPACS), InResponseTo: forge.S("id-req"), NotOnOrAfter: forge.S(s)})
+			method := ""
+			if ci < len(at.Methods) {
+				method = map[string]string{"hok": "urn:oasis:names:tc:SAML:2.0:cm:holder-of-key", "sv": "urn:oasis:names:tc:SAML:2.0:cm:sender-vouches"}[at.Methods[ci]]
+			}
+			a.Confirmations = append(a.Confirmations, forge.Confirmation{Method: method, Recipient: forge.S(spkit.SPACS), InResponseTo: forge.S("id-req"), NotOnOrAfter: forge.S(s)})
 			eff.Confs = append(eff.Confs, margin(e, true, skew))
 		}
 		if c.Layout == "assert" || c.Layout == "both" {
@@ -345,6 +350,7 @@ func gen(t *rapid.T) Case {
 		nc := rapid.SampledFrom([]int{1, 1, 2, 3, 0}).Draw(t, "nconf")
 		for j := 0; j < nc; j++ {
 			a.Confs = append(a.Confs, genMargin(t, "conf"))
+			a.Methods = append(a.Methods, rapid.SampledFrom([]string{"", "", "", "hok", "sv"}).Draw(t, "method"))
 		}
 		c.Asserts = append(c.Asserts, a)
 	}
@@ -390,6 +396,7 @@ func enumLattice(tier string, emit func(Case)) {
 											c.Asserts = []AssertionTimes{varied}
 										case "2conf-last":
 											varied.Confs = []int64{far, cf}
+											varied.Methods = []string{"", []string{"", "hok", "sv"}[(idx/stride)%3]}
 											c.Asserts = []AssertionTimes{varied}
 										case "3conf-mid":
 											varied.Confs = []int64{far, cf, far}
